@@ -52,12 +52,13 @@ CONSTANTS Dev,       \* deviation names in force ({} = ideal)
           Urls,      \* non-empty schema URLs
           TokKinds,  \* token kinds of OTEL_RESOURCE_ATTRIBUTES explored
           MaxTok,    \* max tokens in the list
+          SvcKinds,  \* OTEL_SERVICE_NAME classes explored: subset of {"unset", "empty", "set"}
           MaxPool, MaxProv, MaxSteps,
           RdKinds,   \* readers exercised by the machine
           RdPres, RdBodies, RdSufs, RdTb, RdErr  \* string partition explored by the machine
 
 AllDevs == {"uint-stale-erange", "float-stale-erange", "uint-negative-wraps",
-            "duration-digits-overflow", "duration-unit-overflow"}
+            "duration-digits-overflow", "duration-unit-overflow", "create-nonstring-exe-name-throws"}
 
 (* ======================= 1a. abstract strings ========================== *)
 Units == {"ns", "us", "ms", "s", "m", "h"}
@@ -300,13 +301,24 @@ EnvAlts(ts, svc) ==
 CreateRes(e, user, url, fb) ==
   LET r == Merge(Merge(DefaultRes, R(e, "")), R(user, url))
   IN IF SvcKey \in DOMAIN r.attrs THEN r ELSE [r EXCEPT !.attrs = @ @@ (SvcKey :> fb)]
+\* Model of Create with its one known deviation: the service.name fallback reads
+\* process.executable.name with get<std::string>, which throws for any other value type.
+ExeKey == "process.executable.name"
+NonStr == {"i1", "i2", "n1", "u1", "q1", "b1", "b0", "d1", "vs1", "vi1", "vb1", "vd1"}   \* non-string values of the table
+CreateThrows(e, user) ==
+  LET a == Over(Over(DefaultRes.attrs, e), user)
+  IN SvcKey \notin DOMAIN a /\ ExeKey \in DOMAIN a /\ a[ExeKey] \in NonStr
+CreateModel(D, e, user, url, fb) ==
+  IF "create-nonstring-exe-name-throws" \in D /\ CreateThrows(e, user)
+    THEN [threw |-> TRUE, res |-> EmptyRes, dev |-> "create-nonstring-exe-name-throws"]
+    ELSE [threw |-> FALSE, res |-> CreateRes(e, user, url, fb), dev |-> "none"]
 \* contract of Create, stated declaratively
 CreateOK(e, user, url, r) ==
-  /\ \A k \in DOMAIN user : r.attrs[k] = user[k]
-  /\ \A k \in DOMAIN e \ DOMAIN user : r.attrs[k] = e[k]
+  /\ DOMAIN r.attrs = DOMAIN user \cup DOMAIN e \cup DOMAIN DefaultRes.attrs \cup {SvcKey}   \* first: guards the lookups
+  /\ \A k \in DOMAIN user : r.attrs[k] = user[k]                                       \* the caller wins
+  /\ \A k \in DOMAIN e \ DOMAIN user : r.attrs[k] = e[k]                               \* then the environment
   /\ \A k \in DOMAIN DefaultRes.attrs \ (DOMAIN e \cup DOMAIN user) : r.attrs[k] = DefaultRes.attrs[k]
-  /\ SvcKey \in DOMAIN r.attrs
-  /\ DOMAIN r.attrs = DOMAIN user \cup DOMAIN e \cup DOMAIN DefaultRes.attrs \cup {SvcKey}
+  /\ SvcKey \in DOMAIN r.attrs                                                         \* always a service.name
   /\ r.url = url
 
 PMaps(K, V) == UNION {[D -> V] : D \in SUBSET K}
@@ -317,7 +329,8 @@ NormTok(tk) == IF tk.t \in {"noeq", "empty"} THEN Tok(tk.t, "-", "-")
                ELSE IF tk.t \in {"valeq", "emptyval"} THEN Tok(tk.t, tk.k, "-") ELSE tk
 Toks == {NormTok(tk) : tk \in TokSet}
 TokLists == UNION {[1..n -> Toks] : n \in 0..MaxTok}
-Svcs == {[c |-> "unset", v |-> "-"], [c |-> "empty", v |-> "-"]} \cup {[c |-> "set", v |-> v] : v \in SVals}
+Svcs == {[c |-> c, v |-> "-"] : c \in SvcKinds \cap {"unset", "empty"}}
+        \cup (IF "set" \in SvcKinds THEN {[c |-> "set", v |-> v] : v \in SVals} ELSE {})
 
 (* ======================= 3. the process machine ======================== *)
 VARIABLES env,      \* [toks, svc]: the environment the process was started with
@@ -365,11 +378,16 @@ New(a, u) ==
   /\ Rec([op |-> "New", attrs |-> a, url |-> u, exp |-> R(a, u)])
 Create(a, u) ==
   /\ Live /\ Len(pool) < MaxPool
-  /\ LET r == CreateRes(envalt, a, u, "ANY") IN
-     /\ pool' = Append(pool, r) /\ Step
-     /\ last' = [op |-> "Create", user |-> a, url |-> u, res |-> r]
-     /\ Rec([op |-> "Create", user |-> a, url |-> u, exp |-> r])
-  /\ UNCHANGED <<env, envalt, provs, errno, dead, devUsed>>
+  /\ LET m == CreateModel(Dev, envalt, a, u, "ANY")
+         r == CreateRes(envalt, a, u, "ANY") IN
+     /\ pool' = IF m.threw THEN pool ELSE Append(pool, r)
+     /\ Step
+     /\ dead' = m.threw                      \* the behaviour ends where the code deviates
+     /\ devUsed' = IF m.threw THEN devUsed \cup {m.dev} ELSE devUsed
+     /\ last' = [op |-> "Create", user |-> a, url |-> u, res |-> r, threw |-> m.threw, dev |-> m.dev]
+     /\ Rec([op |-> "Create", user |-> a, url |-> u, exp |-> r,
+             dev |-> CreateModel(AllDevs, envalt, a, u, "ANY").dev])
+  /\ UNCHANGED <<env, envalt, provs, errno>>
 MergeStep(i, j) ==
   /\ Live /\ Len(pool) < MaxPool
   /\ LET r == Merge(pool[i], pool[j]) IN
@@ -452,6 +470,11 @@ CreatePrecedence == Mode = "envs" =>
    \A e \in CaseAlts : CreateOK(e, last.user, last.url, CreateRes(e, last.user, last.url, "ANY"))
 ServiceNameAlwaysPresent == Mode = "envs" =>
    \A e \in CaseAlts : SvcKey \in DOMAIN CreateRes(e, last.user, last.url, "ANY").attrs
+\* the model of Create meets the contract for every reading of the environment, except through its deviation
+CreateModelOK == Mode = "envs" =>
+   \A e \in CaseAlts : LET m == CreateModel(Dev, e, last.user, last.url, "ANY")
+                        IN IF m.threw THEN m.dev \in Dev ELSE CreateOK(e, last.user, last.url, m.res)
+WitCreateThrows == Mode = "envs" => \A e \in CaseAlts : ~CreateModel(Dev, e, last.user, last.url, "ANY").threw
 \* a well-formed list without repeated keys has exactly one reading: its pairs (+ OTEL_SERVICE_NAME)
 WellFormed(ts) == ~Malformed(ts) /\ \A i, j \in 1..Len(ts) : i # j => ts[i].k # ts[j].k
 EnvExact == Mode = "envs" => (WellFormed(last.toks) /\ last.svc.c = "unset" =>
@@ -468,7 +491,8 @@ MMergePrecedence == (Mode = "machine" /\ last.op = "Merge") => MergePrecedenceOK
 \* operands (and everything else created before) are unchanged: the pool only grows
 MergeLeavesOperandsUnchanged == [][Mode = "machine" => SubSeq(pool', 1, Len(pool)) = pool]_vars
 MCreate == (Mode = "machine" /\ last.op = "Create") =>
-              (CreateOK(envalt, last.user, last.url, last.res) /\ last.res = pool[Len(pool)])
+              (CreateOK(envalt, last.user, last.url, last.res)
+               /\ IF last.threw THEN last.dev \in Dev ELSE last.res = pool[Len(pool)])
 MServiceName == (Mode = "machine" /\ last.op = "Create") => SvcKey \in DOMAIN last.res.attrs
 MEmitSeesProviderResource == (Mode = "machine" /\ last.op = "Emit") => last.seen = pool[provs[last.p].res]
 MRead == (Mode = "machine" /\ last.op = "Read") => (last.out \in Contract(last.r, last.s) \/ last.dev \in Dev)
